@@ -1,7 +1,7 @@
 #!/bin/sh
-# run every check of one tier in parallel and print one line per check:  tools/run_all.sh quick|thorough [jobs] [seed]
+# run every check of one tier in parallel and print one line per check:  tools/run_all.sh quick|thorough [jobs] [seed] [--no-proof]
 cd "$(dirname "$0")/.." || exit 2
-tier=${1:-quick}; jobs=${2:-5}; seed=${3:-0}
+tier=${1:-quick}; jobs=${2:-5}; seed=${3:-0}; extra=${4:-}
 mkdir -p /tmp/runall-$tier-$seed
 for i in 01 02 03 04 05 06 07 08 09 10 11 12 13 14 15 16 17 18 19 20; do echo C$i; done | \
-  xargs -P "$jobs" -I{} sh -c "VERIF_SEED=$seed ./vcheck {} --tier $tier > /tmp/runall-$tier-$seed/{}.log 2>&1; echo \"{} exit=\$? \$(grep -v condarc /tmp/runall-$tier-$seed/{}.log | grep -c '^VIOLATION') violation(s) \$(grep -v condarc /tmp/runall-$tier-$seed/{}.log | grep -c '^KNOWN-FINDING') known  \$(grep '^{} ' /tmp/runall-$tier-$seed/{}.log | tail -1 | cut -c1-160)\""
+  xargs -P "$jobs" -I{} sh -c "VERIF_SEED=$seed ./vcheck {} --tier $tier $extra > /tmp/runall-$tier-$seed/{}.log 2>&1; echo \"{} exit=\$? \$(grep -v condarc /tmp/runall-$tier-$seed/{}.log | grep -c '^VIOLATION') violation(s) \$(grep -v condarc /tmp/runall-$tier-$seed/{}.log | grep -c '^KNOWN-FINDING') known  \$(grep '^{} ' /tmp/runall-$tier-$seed/{}.log | tail -1 | cut -c1-160)\""
